@@ -35,6 +35,7 @@ type closeRow struct {
 type closeCase struct {
 	Row    closeRow `json:"row"`
 	Client bool     `json:"client"`
+	Split  int      `json:"split,omitempty"` // received frames: byte offset at which the transport splits the frame
 }
 
 func runCloseSend(rep *Report, cc closeCase) {
@@ -182,7 +183,20 @@ func runCloseRecv(rep *Report, cc closeCase) {
 		p = ws.ClosePayload(cc.Row.Code, reason)
 	}
 	f := ws.Frame{Fin: true, Op: ws.OpClose, Masked: !cc.Client, Key: [4]byte{9, 8, 7, 6}, Payload: p}
-	raw.Out.Write(f.Encode())
+	enc := f.Encode()
+	if cc.Split > 0 && cc.Split < len(enc) {
+		// the frame reaches the library in two transport reads
+		first := true
+		at := cc.Split
+		raw.Out.ChunkFn = func() int {
+			if first {
+				first = false
+				return at
+			}
+			return 1 << 20
+		}
+	}
+	raw.Out.Write(enc)
 	raw.Out.CloseWrite(nil)
 	ctx, cancel := context.WithTimeout(context.Background(), 5*time.Second)
 	defer cancel()
@@ -240,16 +254,26 @@ func init() {
 			}
 			rows++
 			for _, client := range []bool{false, true} {
-				cc := closeCase{Row: row, Client: client}
-				jobs <- func(*rand.Rand) {
-					if cc.Row.Dir == "send" {
-						runCloseSend(rep, cc)
-					} else {
-						runCloseRecv(rep, cc)
+				splits := []int{0}
+				if row.Dir == "recv" && row.Rlen > 0 {
+					hdr := 2
+					if !client {
+						hdr = 6
 					}
-					atomic.AddInt64(&evals, 1)
-					if cc.Row.Rlen > 100 {
-						rep.sample(cc)
+					splits = []int{0, hdr + 1, hdr + 2, hdr + 3, hdr + 2 + row.Rlen/2, hdr + 1 + row.Rlen}
+				}
+				for _, sp := range splits {
+					cc := closeCase{Row: row, Client: client, Split: sp}
+					jobs <- func(*rand.Rand) {
+						if cc.Row.Dir == "send" {
+							runCloseSend(rep, cc)
+						} else {
+							runCloseRecv(rep, cc)
+						}
+						atomic.AddInt64(&evals, 1)
+						if cc.Row.Rlen > 100 {
+							rep.sample(cc)
+						}
 					}
 				}
 			}
